@@ -527,6 +527,46 @@ def raw_name_worker(job):
     return st
 
 
+def root_spelling_worker(job):
+    """The root directory as a starting point, spelled with one to six slashes (round 9): its last path component is "/" however many
+    slashes spell it, so -name/-iname PAT on that depth-0 entry is fnmatch(PAT, "/"); -path sees the spelling as given."""
+    k, nruns, seed = job
+    st = Stats()
+    rng = common.rng_for(seed, "C12root", k)
+    fixed = ["/", "?", "*", "[/]", "??", "//", "", "\\/", "[!a]", "?*", "*?", "[!/]", "/*", "???", "a"]
+    for i in range(nruns):
+        pat = fixed[(i + k) % len(fixed)] if i < len(fixed) else rand_pattern(rng)[0]
+        if "\0" in pat:
+            continue
+        for casefold in (False, True):
+            row = oracle_row(pat, ["/"], casefold)
+            if row is None or row[0] is None:
+                st.inc("out_of_domain_patterns")
+                continue
+            for nsl in range(1, 7):
+                sp = "/" * nsl
+                wp = oracle_row(pat, [sp], casefold)
+                args = ["find", sp, "-maxdepth", "0", "(", "-iname" if casefold else "-name", pat, "-printf", "N", ")", ",",
+                        "(", "-ipath" if casefold else "-path", pat, "-printf", "P", ")"]
+                rc, out, err, to = common.run_cmd([common.FIND] + args[1:], cwd="/", timeout=60)
+                st.inc("binary_runs")
+                st.inc("root_spelling_runs")
+                if to or rc in (101, 134, -6, -11):
+                    st.violate("panic-or-hang", None, {"args": args, "rc": rc, "stderr": err[-300:]}, {"args": args})
+                    continue
+                if rc != 0:
+                    continue                               # rejected patterns are the single-test workloads' business
+                st.inc("evaluations")
+                st.add("root_spellings", nsl)
+                if (b"N" in out) != row[0]:
+                    st.violate("fnmatch-mismatch", None, {"args": args, "subject": "/", "note": "last component of the root directory spelled " + sp,
+                                                          "expected": row[0], "find": b"N" in out}, {"args": args})
+                if wp is not None and wp[0] is not None and (b"P" in out) != wp[0]:
+                    st.violate("fnmatch-mismatch", None, {"args": args, "subject": sp, "note": "whole path of the root directory as spelled",
+                                                          "expected": wp[0], "find": b"P" in out}, {"args": args})
+    return st
+
+
 def memcheck_worker(job):
     """The same kind of pattern rows replayed under valgrind memcheck: Oniguruma (C) compiles and runs every translated
     pattern. A crash is a violation; memcheck reports without a crash are advisory (counted, shown in the notes)."""
@@ -602,6 +642,8 @@ def run(ctx):
     ctx.pmap(pair_worker, [(k, ctx.scale(100, 6000), ctx.seed) for k in range(nw)])
     ctx.require("pair_evaluations_where_the_two_modes_differ", 50)
     ctx.pmap(raw_name_worker, [(k, ctx.scale(6, 400), ctx.seed) for k in range(nw)])
+    ctx.pmap(root_spelling_worker, [(k, ctx.scale(4, 60), ctx.seed) for k in range(nw)])
+    ctx.require("root_spelling_runs", 100)
     ctx.require("raw_members", 20)
     ctx.require("raw_non_members", 20)
     if common.memcheck_available():
